@@ -53,7 +53,7 @@ pub fn show_packet(p: &Packet) -> String {
     format!("P{}={}", if p.can_be_dropped { 1 } else { 0 }, hex(&p.bytes))
 }
 
-fn show_event(e: &ServerSessionEvent) -> String {
+pub fn show_event(e: &ServerSessionEvent) -> String {
     use rml_rtmp::sessions::ServerSessionEvent::*;
     let h = |s: &String| hex(s.as_bytes());
     match e {
